@@ -5,8 +5,10 @@ TECH = 'contract-based deductive verification (self-generated VCs from the AST o
 TABLE = {
     'C03': dict(level='other', bounded=[('c03_opcontract.py', 'instrumented operators check the calling contract at every dynamic invocation')],
                 explanation='proved: the state-variable selection contracts (_get_block_vars: duplicate-free, outputs first, nouts bounds) and '
-                            'the callback arities of the default operators (event mode); assumed with a bounded stand-in: the emitted '
-                            'getter/setter/symbol-name tuples agree position-wise and loop options carry the directives'),
+                            'the callback arities of the default operators (event mode); _create_state_functions builds the getter list '
+                            'with one entry per block variable, in order (the variable itself when simple, its ldu-guarded read when '
+                            'composite); assumed with a bounded stand-in: the template call sites (getter list / tuple(block_vars) / '
+                            'symbol-name tuple come from the same list) and that loop options carry the directives'),
     'C04': dict(level='other', bounded=[('c04_scan.py', 'NoNative scan of to_code + operator invocation counts, constructs planted in every context')],
                 explanation='proved (event mode): PyToPy.transform_ast runs exactly the documented pass pipeline, in order, asserts / '
                             'lists+slices only under their feature flag (trace equivalence with the specification program); '
